@@ -165,9 +165,9 @@ CLAIMED = {
          'returns a bounding element of the window; Embed is a lookup; masked positions cannot influence normalisation statistics, deviations from the mean sum to zero, running averages at momentum '
          '0 and 1. Tied to /repo per run: every layer of the property (Dense, DenseGeneral, Einsum, Conv 1-D/2-D, ConvLocal, ConvTranspose, Embed, pooling, LayerNorm / RMSNorm / GroupNorm / '
          'InstanceNorm / BatchNorm, Dropout) in Linen and NNX with explicit integer parameters is compared with an independent numpy direct-sum reference and Linen with NNX; the modelled '
-         'layers are also compared with the model in Coq.',
+         'layers are also compared with the model in Coq, the outputs of LayerNorm / RMSNorm / GroupNorm / InstanceNorm included (square-root free: (y - b)^2 (var + eps) = s^2 (x - mean)^2 with the sign of s (x - mean), per reduction group).',
     note='Trusted: Coq kernel, vm_compute, harness (numpy reference c12_ref.py), jaxcompat, float64 arithmetic of XLA on small integers. NOT proved / not modelled: DenseGeneral and Einsum axis '
-         'arithmetic, 2-D ConvTranspose, 3-D convolutions, ConvLocal, normalised outputs (square roots), Group / Instance / RMS norms, Dropout: oracle-only. Outputs at masked positions and windows '
+         'arithmetic, 2-D ConvTranspose, 3-D convolutions, ConvLocal, Dropout: oracle-only; the reduction groups of the normalisation layers are computed by the harness. Outputs at masked positions and windows '
          'entirely in the padding (0/0) are unspecified and compared as the code gives them. dtype promotion, precision, axis_name not covered. No axioms.',
     technique='Coq proof (index arithmetic of padding / strides, non-interference, rational statistics) + per-run correspondence by vm_compute + independent direct-sum reference on the real code',
     ref='DESIGN.md section 5, C12'),
